@@ -20,7 +20,7 @@ META = {"engine": "A floscript", "technique": "runtime trace monitor vs exact-ra
                       "computed in exact rational arithmetic; grid part is enumerated exhaustively, the rest seeded random.",
         "level_note": "Runs are observed through runner proxies and the store-stamp hook; ideal model is Appendix A.2 of DESIGN.md."}
 
-TICKS = ["0.0625", "0.125", "0.25", "0.1", "0.05", "0.2", "0.3"]
+TICKS = ["0.0625", "0.125", "0.25", "0.0078125", "0.1", "0.05", "0.2", "0.3"]   # 1/128: exact, but 7 decimals
 
 
 def dyadic(fr):
